@@ -822,6 +822,8 @@ impl Session {
 
         // One peer (and one job) per address, same as for outgoing connections
         if self.peers.contains_key(&addr) {
+            #[cfg(rdest_verif)]
+            self.verif_emit("AcceptDup", &addr, "");
             return;
         }
 
